@@ -382,7 +382,8 @@ func c09present(x *X, s *lifeSlot, chunk int, hist string, modified, restarted b
 		impostor := 100 + other*10 + sg.key
 		otherNoKid := 200 + other
 		nilKey := 300
-		for _, key := range []int{sg.key, other, -1, impostor, otherNoKid, nilKey} {
+		ownNoKid, ownRelabelled := 400+sg.key, 500+sg.key
+		for _, key := range []int{sg.key, other, -1, impostor, otherNoKid, nilKey, ownNoKid, ownRelabelled} {
 			if key == nilKey && !(ep == epLib || ep == epLibSig) {
 				continue // a nil key on the CLI paths is the "no key" case
 			}
@@ -406,7 +407,7 @@ func c09present(x *X, s *lifeSlot, chunk int, hist string, modified, restarted b
 				exp = "ok"
 			}
 			ok, detail, panicked := verifyVia(x, ep, s.env, key, chunk)
-			keyName := map[int]string{sg.key: "signer", other: "other", -1: "none", impostor: "impostor-with-signers-kid", otherNoKid: "other-without-kid", nilKey: "nil-key"}[key]
+			keyName := map[int]string{sg.key: "signer", other: "other", -1: "none", impostor: "impostor-with-signers-kid", otherNoKid: "other-without-kid", nilKey: "nil-key", ownNoKid: "signer-without-kid", ownRelabelled: "signer-under-another-kid"}[key]
 			x.Case(H([]byte(hist)) + "|" + ep + "|" + keyName)
 			if modified {
 				x.R.Nontrivial = true
